@@ -139,7 +139,7 @@ impl BitRead for BitBuffer {
 
     #[inline]
     fn read_bits(&mut self, dst: &mut [u8]) -> Result<(), Error> {
-        BitRead::read_bits(&mut (&self.buffer[..], &mut self.read_position), dst)
+        self.read_bits_with_offset_len(dst, 0, dst.len() * BYTE_LEN)
     }
 
     #[inline]
@@ -148,20 +148,15 @@ impl BitRead for BitBuffer {
         dst: &mut [u8],
         dst_bit_offset: usize,
     ) -> Result<(), Error> {
-        BitRead::read_bits_with_offset(
-            &mut (&self.buffer[..], &mut self.read_position),
-            dst,
-            dst_bit_offset,
-        )
+        let dst_bit_len = (dst.len() * BYTE_LEN)
+            .checked_sub(dst_bit_offset)
+            .ok_or_else(Error::insufficient_space_in_destination_buffer)?;
+        self.read_bits_with_offset_len(dst, dst_bit_offset, dst_bit_len)
     }
 
     #[inline]
     fn read_bits_with_len(&mut self, dst: &mut [u8], dst_bit_len: usize) -> Result<(), Error> {
-        BitRead::read_bits_with_len(
-            &mut (&self.buffer[..], &mut self.read_position),
-            dst,
-            dst_bit_len,
-        )
+        self.read_bits_with_offset_len(dst, 0, dst_bit_len)
     }
 
     #[inline]
@@ -171,6 +166,10 @@ impl BitRead for BitBuffer {
         dst_bit_offset: usize,
         dst_bit_len: usize,
     ) -> Result<(), Error> {
+        // only the written bits are readable, not the padding of the last byte
+        if self.write_position < self.read_position.saturating_add(dst_bit_len) {
+            return Err(Error::insufficient_data_in_source_buffer());
+        }
         BitRead::read_bits_with_offset_len(
             &mut (&self.buffer[..], &mut self.read_position),
             dst,
@@ -271,7 +270,7 @@ impl BitRead for Bits<'_> {
 
     #[inline]
     fn read_bits(&mut self, dst: &mut [u8]) -> Result<(), Error> {
-        BitRead::read_bits(&mut (self.slice, &mut self.pos), dst)
+        self.read_bits_with_offset_len(dst, 0, dst.len() * BYTE_LEN)
     }
 
     #[inline]
@@ -280,12 +279,15 @@ impl BitRead for Bits<'_> {
         dst: &mut [u8],
         dst_bit_offset: usize,
     ) -> Result<(), Error> {
-        BitRead::read_bits_with_offset(&mut (self.slice, &mut self.pos), dst, dst_bit_offset)
+        let dst_bit_len = (dst.len() * BYTE_LEN)
+            .checked_sub(dst_bit_offset)
+            .ok_or_else(Error::insufficient_space_in_destination_buffer)?;
+        self.read_bits_with_offset_len(dst, dst_bit_offset, dst_bit_len)
     }
 
     #[inline]
     fn read_bits_with_len(&mut self, dst: &mut [u8], dst_bit_len: usize) -> Result<(), Error> {
-        BitRead::read_bits_with_len(&mut (self.slice, &mut self.pos), dst, dst_bit_len)
+        self.read_bits_with_offset_len(dst, 0, dst_bit_len)
     }
 
     #[inline]
@@ -295,6 +297,10 @@ impl BitRead for Bits<'_> {
         dst_bit_offset: usize,
         dst_bit_len: usize,
     ) -> Result<(), Error> {
+        // the declared length limits what is readable, not the length of the underlying slice
+        if self.len < self.pos.saturating_add(dst_bit_len) {
+            return Err(Error::insufficient_data_in_source_buffer());
+        }
         BitRead::read_bits_with_offset_len(
             &mut (self.slice, &mut self.pos),
             dst,
@@ -331,7 +337,7 @@ impl ScopedBitRead for Bits<'_> {
 
     #[inline]
     fn remaining(&self) -> usize {
-        self.len - self.pos
+        self.len.saturating_sub(self.pos)
     }
 }
 
